@@ -623,54 +623,97 @@ theorem checkMem_base64 (c : Spec.X86.Ctx) (r : Rule) (p : Parsed) (m : MemOp) (
     simp [checkMem, hmodrm, hmod', hm64, hno67, hno67', ha16, hvs, hbk, hik, hs, hn5', hb, hx, hsc, wantedAddrSize, bind, Except.bind, pure, Except.pure]
     simpa using hd
 
-/-- EVEX memory form (64-bit mode, no legacy prefix) -/
-theorem parse_evex_mem (r : Rule) (p0 p1 p2 o mb : BitVec 8) (sib : Option (BitVec 8)) (disp imm : List (BitVec 8))
+/-- at most two legacy prefix bytes (segment override and / or 67) -/
+def PfxList (fw : Bool) (pfx : List (BitVec 8)) : Prop :=
+  pfx = [] ∨ (∃ a, pfx = [a] ∧ isLegacyPrefix a fw = true) ∨ (∃ a b, pfx = [a, b] ∧ isLegacyPrefix a fw = true ∧ isLegacyPrefix b fw = true)
+
+/-- the legacy prefixes in front of a VEX / EVEX prefix are exactly the ones memory operand `m` asks for: its segment override, and 67 iff it
+uses 32-bit address registers (64-bit mode) -/
+structure PfxCounts (pfx : List (BitVec 8)) (m : MemOp) : Prop where
+  c66 : pfx.count 0x66#8 = 0
+  cF3 : pfx.count 0xF3#8 = 0
+  cF2 : pfx.count 0xF2#8 = 0
+  cF0 : pfx.count 0xF0#8 = 0
+  c9B : pfx.count 0x9B#8 = 0
+  cseg : pfx.filter isSegByte = (match segPrefix m.seg with | some s => [s] | Option.none => [])
+  c67 : pfx.count 0x67#8 ≤ 1
+  ccont : pfx.contains 0x67#8 = (wantedAddrSize true m != 64)
+
+/-- EVEX memory form (64-bit mode, optional segment / 67 prefixes) -/
+theorem parse_evex_mem (r : Rule) (pfx : List (BitVec 8)) (p0 p1 p2 o mb : BitVec 8) (sib : Option (BitVec 8)) (disp imm : List (BitVec 8))
+    (hpfx : PfxList (r.pp &&& 8 != 0) pfx)
     (hs : r.space = 2) (hfw : r.pp &&& 8 = 0) (hmk : r.modKind ≠ 0)
     (h3 : bit p0 3 = false) (h2 : bit p1 2 = true)
     (hmod : bits mb 6 2 ≠ 3) (hsib : (bits mb 0 3 == 4) = sib.isSome) (hdl : disp.length = dispLen mb sib)
     (hlen : imm.length = r.immBytes + r.relBytes) (hmoff : r.moff = false) :
-    parse true r (0x62#8 :: p0 :: p1 :: p2 :: o :: mb :: (sib.toList ++ disp ++ imm)) =
-      .ok { prefixes := [], vexKind := 4, R := !bit p0 7, X := !bit p0 6, B := !bit p0 5, R' := !bit p0 4, map := bits p0 0 3,
+    parse true r (pfx ++ 0x62#8 :: p0 :: p1 :: p2 :: o :: mb :: (sib.toList ++ disp ++ imm)) =
+      .ok { prefixes := pfx, vexKind := 4, R := !bit p0 7, X := !bit p0 6, B := !bit p0 5, R' := !bit p0 4, map := bits p0 0 3,
             W := bit p1 7, vvvv := 15 - bits p1 3 4, pp := bits p1 0 2, z := bit p2 7, L := bits p2 5 2, b := bit p2 4,
             V' := !bit p2 3, aaa := bits p2 0 3, opcode := o, modrm := some mb, sib := sib, dispSize := disp.length, disp := leNat disp,
-            addr16 := false, imm := imm, length := 6 + sib.toList.length + disp.length + imm.length } := by
+            addr16 := false, imm := imm, length := pfx.length + 6 + sib.toList.length + disp.length + imm.length } := by
   have hmk' : (r.modKind != 0) = true := by simpa using hmk
-  simp only [parse, takePrefixes, show isLegacyPrefix 0x62#8 (r.pp &&& 8 != 0) = false from by simp [isLegacyPrefix, hfw], hs]
-  simp [-List.append_assoc, h3, h2, hmk', parseModRM_mem _ mb sib disp imm hmod hsib hdl, hlen, hmoff, bind, Except.bind, pure, Except.pure]
-  cases sib <;> simp <;> omega
+  have hnl := show isLegacyPrefix 0x62#8 (r.pp &&& 8 != 0) = false from by simp [isLegacyPrefix, hfw]
+  rcases hpfx with h | ⟨a, h, ha⟩ | ⟨a, b, h, ha, hb⟩ <;> subst h
+  · simp only [parse, takePrefixes, hnl, hs, List.nil_append]
+    simp [-List.append_assoc, h3, h2, hmk', parseModRM_mem _ mb sib disp imm hmod hsib hdl, hlen, hmoff, bind, Except.bind, pure, Except.pure]
+    cases sib <;> simp <;> omega
+  · simp only [parse, takePrefixes, hnl, ha, hs, List.cons_append, List.nil_append]
+    simp [-List.append_assoc, h3, h2, hmk', parseModRM_mem _ mb sib disp imm hmod hsib hdl, hlen, hmoff, bind, Except.bind, pure, Except.pure]
+    cases sib <;> simp <;> omega
+  · simp only [parse, takePrefixes, hnl, ha, hb, hs, List.cons_append, List.nil_append]
+    simp [-List.append_assoc, h3, h2, hmk', parseModRM_mem _ mb sib disp imm hmod hsib hdl, hlen, hmoff, bind, Except.bind, pure, Except.pure]
+    cases sib <;> simp <;> omega
 
 /-- VEX3 memory form -/
-theorem parse_vex3_mem (r : Rule) (b1 b2 o mb : BitVec 8) (sib : Option (BitVec 8)) (disp imm : List (BitVec 8))
+theorem parse_vex3_mem (r : Rule) (pfx : List (BitVec 8)) (b1 b2 o mb : BitVec 8) (sib : Option (BitVec 8)) (disp imm : List (BitVec 8))
+    (hpfx : PfxList (r.pp &&& 8 != 0) pfx)
     (hs : r.space = 1) (hfw : r.pp &&& 8 = 0) (hmk : r.modKind ≠ 0)
     (hmod : bits mb 6 2 ≠ 3) (hsib : (bits mb 0 3 == 4) = sib.isSome) (hdl : disp.length = dispLen mb sib)
     (hlen : imm.length = r.immBytes + r.relBytes) (hmoff : r.moff = false) :
-    parse true r (0xC4#8 :: b1 :: b2 :: o :: mb :: (sib.toList ++ disp ++ imm)) =
-      .ok { prefixes := [], vexKind := 3, R := !bit b1 7, X := !bit b1 6, B := !bit b1 5, map := bits b1 0 5, W := bit b2 7,
+    parse true r (pfx ++ 0xC4#8 :: b1 :: b2 :: o :: mb :: (sib.toList ++ disp ++ imm)) =
+      .ok { prefixes := pfx, vexKind := 3, R := !bit b1 7, X := !bit b1 6, B := !bit b1 5, map := bits b1 0 5, W := bit b2 7,
             vvvv := 15 - bits b2 3 4, L := bits b2 2 1, pp := bits b2 0 2, opcode := o, modrm := some mb, sib := sib, dispSize := disp.length, disp := leNat disp,
-            addr16 := false, imm := imm, length := 5 + sib.toList.length + disp.length + imm.length } := by
+            addr16 := false, imm := imm, length := pfx.length + 5 + sib.toList.length + disp.length + imm.length } := by
   have hmk' : (r.modKind != 0) = true := by simpa using hmk
-  simp only [parse, takePrefixes, show isLegacyPrefix 0xC4#8 (r.pp &&& 8 != 0) = false from by simp [isLegacyPrefix, hfw], hs]
-  simp [-List.append_assoc, hmk', parseModRM_mem _ mb sib disp imm hmod hsib hdl, hlen, hmoff, bind, Except.bind, pure, Except.pure]
-  cases sib <;> simp <;> omega
+  have hnl := show isLegacyPrefix 0xC4#8 (r.pp &&& 8 != 0) = false from by simp [isLegacyPrefix, hfw]
+  rcases hpfx with h | ⟨a, h, ha⟩ | ⟨a, b, h, ha, hb⟩ <;> subst h
+  · simp only [parse, takePrefixes, hnl, hs, List.nil_append]
+    simp [-List.append_assoc, hmk', parseModRM_mem _ mb sib disp imm hmod hsib hdl, hlen, hmoff, bind, Except.bind, pure, Except.pure]
+    cases sib <;> simp <;> omega
+  · simp only [parse, takePrefixes, hnl, ha, hs, List.cons_append, List.nil_append]
+    simp [-List.append_assoc, hmk', parseModRM_mem _ mb sib disp imm hmod hsib hdl, hlen, hmoff, bind, Except.bind, pure, Except.pure]
+    cases sib <;> simp <;> omega
+  · simp only [parse, takePrefixes, hnl, ha, hb, hs, List.cons_append, List.nil_append]
+    simp [-List.append_assoc, hmk', parseModRM_mem _ mb sib disp imm hmod hsib hdl, hlen, hmoff, bind, Except.bind, pure, Except.pure]
+    cases sib <;> simp <;> omega
 
 /-- VEX2 memory form -/
-theorem parse_vex2_mem (r : Rule) (b1 o mb : BitVec 8) (sib : Option (BitVec 8)) (disp imm : List (BitVec 8))
+theorem parse_vex2_mem (r : Rule) (pfx : List (BitVec 8)) (b1 o mb : BitVec 8) (sib : Option (BitVec 8)) (disp imm : List (BitVec 8))
+    (hpfx : PfxList (r.pp &&& 8 != 0) pfx)
     (hs : r.space = 1) (hfw : r.pp &&& 8 = 0) (hmk : r.modKind ≠ 0)
     (hmod : bits mb 6 2 ≠ 3) (hsib : (bits mb 0 3 == 4) = sib.isSome) (hdl : disp.length = dispLen mb sib)
     (hlen : imm.length = r.immBytes + r.relBytes) (hmoff : r.moff = false) :
-    parse true r (0xC5#8 :: b1 :: o :: mb :: (sib.toList ++ disp ++ imm)) =
-      .ok { prefixes := [], vexKind := 2, R := !bit b1 7, vvvv := 15 - bits b1 3 4, L := bits b1 2 1, pp := bits b1 0 2, map := 1, opcode := o, modrm := some mb, sib := sib, dispSize := disp.length, disp := leNat disp,
-            addr16 := false, imm := imm, length := 4 + sib.toList.length + disp.length + imm.length } := by
+    parse true r (pfx ++ 0xC5#8 :: b1 :: o :: mb :: (sib.toList ++ disp ++ imm)) =
+      .ok { prefixes := pfx, vexKind := 2, R := !bit b1 7, vvvv := 15 - bits b1 3 4, L := bits b1 2 1, pp := bits b1 0 2, map := 1, opcode := o, modrm := some mb, sib := sib, dispSize := disp.length, disp := leNat disp,
+            addr16 := false, imm := imm, length := pfx.length + 4 + sib.toList.length + disp.length + imm.length } := by
   have hmk' : (r.modKind != 0) = true := by simpa using hmk
-  simp only [parse, takePrefixes, show isLegacyPrefix 0xC5#8 (r.pp &&& 8 != 0) = false from by simp [isLegacyPrefix, hfw], hs]
-  simp [-List.append_assoc, hmk', parseModRM_mem _ mb sib disp imm hmod hsib hdl, hlen, hmoff, bind, Except.bind, pure, Except.pure]
-  cases sib <;> simp <;> omega
+  have hnl := show isLegacyPrefix 0xC5#8 (r.pp &&& 8 != 0) = false from by simp [isLegacyPrefix, hfw]
+  rcases hpfx with h | ⟨a, h, ha⟩ | ⟨a, b, h, ha, hb⟩ <;> subst h
+  · simp only [parse, takePrefixes, hnl, hs, List.nil_append]
+    simp [-List.append_assoc, hmk', parseModRM_mem _ mb sib disp imm hmod hsib hdl, hlen, hmoff, bind, Except.bind, pure, Except.pure]
+    cases sib <;> simp <;> omega
+  · simp only [parse, takePrefixes, hnl, ha, hs, List.cons_append, List.nil_append]
+    simp [-List.append_assoc, hmk', parseModRM_mem _ mb sib disp imm hmod hsib hdl, hlen, hmoff, bind, Except.bind, pure, Except.pure]
+    cases sib <;> simp <;> omega
+  · simp only [parse, takePrefixes, hnl, ha, hb, hs, List.cons_append, List.nil_append]
+    simp [-List.append_assoc, hmk', parseModRM_mem _ mb sib disp imm hmod hsib hdl, hlen, hmoff, bind, Except.bind, pure, Except.pure]
+    cases sib <;> simp <;> omega
 
 
 /-- what the parser returned for a VEX-family MEMORY form, in terms of the rule -/
-structure VexParsedM (rule : Rule) (p : Parsed) (mb : BitVec 8) : Prop where
+structure VexParsedM (rule : Rule) (p : Parsed) (mb : BitVec 8) (pfx : List (BitVec 8)) : Prop where
   hvk : p.vexKind = 2 ∨ p.vexKind = 3 ∨ p.vexKind = 4 ∨ p.vexKind = 5
-  hpfx : p.prefixes = []
+  hpfx : p.prefixes = pfx
   hrex : p.rex = none
   hmodrm : p.modrm = some mb
   hmod : bits mb 6 2 ≠ 3
@@ -698,20 +741,21 @@ structure VexRuleM (rule : Rule) (nimm : Nat) : Prop where
   hosz : rule.osz = 0
 
 /-- shape [reg, vvvv, MEM] with a 64-bit-addressed, non-VSIB memory operand without segment / broadcast: all conditions of the monitor hold -/
-theorem vex_rvm_mem_formOk (ctx : Spec.X86.Ctx) (rule : Rule) (p : Parsed) (mb : BitVec 8) (bytes : List (BitVec 8))
+theorem vex_rvm_mem_formOk (ctx : Spec.X86.Ctx) (rule : Rule) (p : Parsed) (mb : BitVec 8) (bytes pfx : List (BitVec 8))
     (k0 k1 : RegKind) (f0 f1 f2 : FormOp) (i0 i1 : Nat) (m : MemOp)
     (hm64 : ctx.mode64 = true) (hmode : (rule.modes &&& 2 != 0) = true) (hk0 : PlainKind k0) (hk1 : PlainKind k1)
     (R : VexRuleM rule 0) (hf0 : f0.role = .reg) (hf1 : f1.role = .vvvv) (hf2 : f2.role = .rm)
-    (hwa : wantedAddrSize true m = 64) (hvs : vsibOf m = .none) (hseg : m.seg = 0) (hbc : m.bcst = 0)
+    (K : PfxCounts pfx m) (hvs : vsibOf m = .none) (hbc : m.bcst = 0)
     (hal : alignOps rule.oszEff rule.ops [.reg k0 i0, .reg k1 i1, .mem m] =
            some [(f0, some (.reg k0 i0)), (f1, some (.reg k1 i1)), (f2, some (.mem m))])
-    (hparse : parse true rule bytes = .ok p) (P : VexParsedM rule p mb)
+    (hparse : parse true rule bytes = .ok p) (P : VexParsedM rule p mb pfx)
     (hreg : regNum p.R' p.R (bits mb 3 3) = i0)
     (hvv : regNum p.V' false p.vvvv = i1)
     (hcm : checkMem ctx rule p m = .ok ()) :
     formOk ctx rule [.reg k0 i0, .reg k1 i1, .mem m] {} bytes = true := by
   obtain ⟨hvk, hpfx, hrex, hmodrm, hmod, hop, hmap, hpp, hw, hl, hl1, hev⟩ := P
   obtain ⟨hs, hpp8, hri, hmk, hmr, hmrm, himm, hrel, hmoff, ha67, hrev, hosz⟩ := R
+  obtain ⟨c66, cF3, cF2, cF0, c9B, cseg, c67, ccont⟩ := K
   have hleg : isLegacySpace rule = false := by rcases hs with h | h | h <;> simp [isLegacySpace, h]
   have hs4 : (rule.space == 4) = false := by rcases hs with h | h | h <;> simp [h]
   have hvk0 : (p.vexKind == 0) = false := by rcases hvk with h | h | h | h <;> simp [h]
@@ -719,13 +763,15 @@ theorem vex_rvm_mem_formOk (ctx : Spec.X86.Ctx) (rule : Rule) (p : Parsed) (mb :
   simp only [formOk, conds, hm64, hal, hparse, ↓reduceIte, hmode]
   simp only [allOk_cons, allOk_append, decorConds, headConds, prefixConds, modrmConds, operandConds, opConds, tailConds, hf0, hf1, hf2,
     regConds_plain _ _ _ _ _ hk0, regConds_plain _ _ _ _ _ hk1, allOk_nil, memOperandOf, implMemOf, usesVvvv, memDestOf, hcm, Spec.X86.ofExcept,
-    hasBcst, hleg, hri, hmodrm, hpfx, hrex, List.foldl, List.find?]
-  simp [hop, hmap, hpp, hreg, hvv, hmod', hmr, hmrm, hs4, hvk0, hpp8, ha67, hbc, hseg, hwa, hvs, segPrefix, hm64, allOk]
+    hasBcst, hleg, hri, hmodrm, hpfx, hrex, List.foldl, List.find?, c66, cF3, cF2, cF0, c9B, cseg, ccont]
+  simp [hop, hmap, hpp, hreg, hvv, hmod', hmr, hmrm, hs4, hvk0, hpp8, ha67, hbc, hvs, hm64, allOk]
   have hvk0' : ¬ p.vexKind = 0 := by rcases hvk with h | h | h | h <;> omega
   and_intros
   all_goals first
     | exact hw
     | exact hvk0'
+    | exact c67
+    | (refine Or.inr ?_; simpa using ccont)
     | (refine Or.inl ?_; rcases hs with h | h | h <;> omega)
     | (rcases hmk with h | h <;> omega)
     | (rcases hl with h | h
